@@ -241,6 +241,12 @@ def run(ctx):
     if len(kern) < 100:
         raise common.MachineryError(f"discovery found only {len(kern)} dispatchers")
     bad = ctx.tlc_validate_sharded("Trace_C18", "Trace.cfg", [{k: v for k, v in ln.items() if k != "note"} for ln in lines])
+    ctx.selftest("Trace_C18", "Trace.cfg", [{k: v for k, v in ln.items() if k not in ('note',)} for ln in lines if ln["oid"] not in bad and (True)], [
+        ("dev", lambda l: dict(l, dev_milli=4000)),
+        ("raised", lambda l: dict(l, interp_raised=True) if l["what"] in ("site", "kernel") else None),
+        ("element", lambda l: dict(l, order=8) if l["what"] == "site" else None),
+        ("arity", lambda l: dict(l, maxidx=l["nargs"]) if l["what"] == "site" else None),
+        ("outcome", lambda l: dict(l, outcome="Crash_TypingError") if l["what"] == "run" else None)])
     for oid, clause in bad.items():
         ln = uniq[oid]
         if ln["what"] == "site":
